@@ -58,6 +58,96 @@ func controlCondsPol(b *ssa.BasicBlock) []ctrlCond {
 	return out
 }
 
+// controlDeps: the branch conditions the block is control dependent on in the classical sense (Ferrante et
+// al.): an edge d->s such that b post-dominates s (or is s) but does not strictly post-dominate d, transitively.
+// Unlike controlCondsPol (conditions that are *necessary* to reach b) this also reports the tests of a
+// short-circuit condition for its join block: `if a && b { X }; Y` - Y's else-join depends on a and on b.
+func controlDeps(b *ssa.BasicBlock) []ctrlCond {
+	f := b.Parent()
+	n := len(f.Blocks)
+	// post-dominator sets with a virtual exit (index n)
+	full := func() []bool {
+		s := make([]bool, n+1)
+		for i := range s {
+			s[i] = true
+		}
+		return s
+	}
+	pdom := make([][]bool, n+1)
+	for i := 0; i <= n; i++ {
+		pdom[i] = full()
+	}
+	pdom[n] = make([]bool, n+1)
+	pdom[n][n] = true
+	succs := func(i int) []int {
+		if i == n {
+			return nil
+		}
+		blk := f.Blocks[i]
+		if len(blk.Succs) == 0 {
+			return []int{n}
+		}
+		var out []int
+		for _, s := range blk.Succs {
+			out = append(out, s.Index)
+		}
+		return out
+	}
+	for changed := true; changed; {
+		changed = false
+		for i := n - 1; i >= 0; i-- {
+			nw := full()
+			for _, s := range succs(i) {
+				for k := range nw {
+					nw[k] = nw[k] && pdom[s][k]
+				}
+			}
+			nw[i] = true
+			for k := range nw {
+				if nw[k] != pdom[i][k] {
+					changed = true
+				}
+			}
+			pdom[i] = nw
+		}
+	}
+	seen := map[*ssa.BasicBlock]bool{}
+	var out []ctrlCond
+	var visit func(x *ssa.BasicBlock)
+	visit = func(x *ssa.BasicBlock) {
+		if seen[x] {
+			return
+		}
+		seen[x] = true
+		for _, d := range f.Blocks {
+			if len(d.Instrs) == 0 {
+				continue
+			}
+			ifi, ok := d.Instrs[len(d.Instrs)-1].(*ssa.If)
+			if !ok || len(d.Succs) != 2 {
+				continue
+			}
+			for i, s := range d.Succs {
+				// x post-dominates s (or is s) and does not strictly post-dominate d
+				if (s == x || pdom[s.Index][x.Index]) && !(d != x && pdom[d.Index][x.Index]) {
+					cond, taken := ifi.Cond, i == 0
+					for {
+						if u, ok := cond.(*ssa.UnOp); ok && u.Op == token.NOT {
+							cond, taken = u.X, !taken
+							continue
+						}
+						break
+					}
+					out = append(out, ctrlCond{cond, taken})
+					visit(d)
+				}
+			}
+		}
+	}
+	visit(b)
+	return out
+}
+
 type editInst struct {
 	fn   *ssa.Function
 	pos  token.Pos
